@@ -29,6 +29,8 @@ type c18Case struct {
 	Ready     uint32 `json:"readyMask"` // bit k: pod k has an IP
 	Updating  int    `json:"updating"`  // 0: up to date, 1: rolling update in progress
 	TwoSets   bool   `json:"twoSets"`   // a second StatefulSet with a similar name exists
+	Then      int    `json:"then"`      // >= 0: a second ChangeScale(Then) on the SAME manager object (the coordinator calls it twice per cycle)
+	External  int    `json:"external"`  // >= 0: somebody else scales the StatefulSet to this count between Replicas() and ChangeScale()
 }
 
 const maxN = 12 // ordinals >= 10 matter: "prom-10" sorts before "prom-2" as a string
@@ -60,15 +62,26 @@ func c18Cases(tier string) []c18Case {
 								continue
 							}
 							seen[m] = true
-							cs = append(cs, c18Case{Old: old, New: nw, Templates: tpl, DeletePVC: del, Order: order, Ready: m, TwoSets: (old+nw+order)%2 == 0})
+							cs = append(cs, c18Case{Old: old, New: nw, Templates: tpl, DeletePVC: del, Order: order, Ready: m, TwoSets: (old+nw+order)%2 == 0, Then: -1, External: -1})
 						}
+					}
+				}
+			}
+		}
+		// the same manager asked twice, and a StatefulSet scaled behind the manager's back
+		if old <= 6 {
+			for nw := 0; nw <= 6; nw++ {
+				for x := 0; x <= 6; x++ {
+					for _, del := range []bool{false, true} {
+						cs = append(cs, c18Case{Old: old, New: nw, Templates: 1, DeletePVC: del, Ready: (1 << uint(old)) - 1, Then: x, External: -1})
+						cs = append(cs, c18Case{Old: old, New: nw, Templates: 1, DeletePVC: del, Ready: (1 << uint(old)) - 1, Then: -1, External: x})
 					}
 				}
 			}
 		}
 		// rolling update in progress
 		for order := 0; order < 2; order++ {
-			cs = append(cs, c18Case{Old: old, New: old, Templates: 1, Order: order, Ready: (1 << uint(old)) - 1, Updating: 1, TwoSets: true})
+			cs = append(cs, c18Case{Old: old, New: old, Templates: 1, Order: order, Ready: (1 << uint(old)) - 1, Updating: 1, TwoSets: true, Then: -1, External: -1})
 		}
 	}
 	return cs
@@ -234,89 +247,117 @@ func runC18(w *core.WorkerCtx, idx int) *core.CaseResult {
 			res.AddStat("addresses_checked", 1)
 		}
 	}
-	// ---- ChangeScale
-	cli.ClearActions()
-	if err := m.ChangeScale(int32(c.New)); err != nil {
-		res.Violate("C18/change-scale-error", "ChangeScale(%d): %v", c.New, err)
-	}
-	updates, deleted := 0, map[string]bool{}
-	var otherWrites []string
-	for _, a := range cli.Actions() {
-		verb, resource := a.GetVerb(), a.GetResource().Resource
-		switch {
-		case verb == "get" || verb == "list" || verb == "watch":
-		case verb == "update" && resource == "statefulsets":
-			updates++
-			sts, ok := a.(k8stesting.UpdateAction).GetObject().(*appsv1.StatefulSet)
-			if !ok || sts.Name != set || sts.Spec.Replicas == nil || int(*sts.Spec.Replicas) != c.New {
-				res.Violate("C18/wrong-update", "StatefulSet update sets replicas to something else than the requested %d", c.New)
-			}
-		case verb == "delete" && resource == "persistentvolumeclaims":
-			deleted[a.(k8stesting.DeleteAction).GetName()] = true
-		default:
-			otherWrites = append(otherWrites, verb+" "+resource)
-		}
-	}
-	res.AddStat("scale_changes", 1)
-	if c.New != c.Old && updates != 1 {
-		res.Violate("C18/update-count", "scale %d -> %d issued %d StatefulSet updates, expected exactly 1", c.Old, c.New, updates)
-	}
-	if c.New == c.Old && (updates != 0 || len(deleted) != 0 || len(otherWrites) != 0) {
-		res.Violate("C18/unchanged-scale-not-noop", "scale unchanged at %d but %d updates, deletions %v, other writes %v", c.Old, updates, keysB(deleted), otherWrites)
-	}
-	if len(otherWrites) > 0 {
-		res.Violate("C18/unexpected-write", "unexpected API writes: %v", otherWrites)
-	}
-	// the object in the API afterwards
-	if sts, err := cli.AppsV1().StatefulSets(ns).Get(nil2ctx(), set, metav1.GetOptions{}); err == nil {
-		if sts.Spec.Replicas == nil || int(*sts.Spec.Replicas) != c.New {
-			res.Violate("C18/replicas-not-set", "after ChangeScale(%d) the StatefulSet has replicas %v", c.New, sts.Spec.Replicas)
-		}
-	}
-	wantDel := map[string]bool{}
-	if c.DeletePVC {
-		for i := c.New; i < c.Old; i++ {
-			for t := 0; t < c.Templates; t++ {
-				wantDel[fmt.Sprintf("%s-%s-%d", []string{"data", "wal"}[t], set, i)] = true
+	// ---- ChangeScale: one or two calls on the same manager object, possibly after an external change
+	live := c.Old
+	if c.External >= 0 {
+		if sts, err := cli.AppsV1().StatefulSets(ns).Get(nil2ctx(), set, metav1.GetOptions{}); err == nil {
+			sts.Spec.Replicas = i32(c.External)
+			if _, err := cli.AppsV1().StatefulSets(ns).Update(nil2ctx(), sts, metav1.UpdateOptions{}); err == nil {
+				live = c.External
 			}
 		}
 	}
-	for n := range deleted {
-		if !wantDel[n] {
-			kind := "claim-of-remaining-or-foreign"
-			if !c.DeletePVC {
-				kind = "deletion-disabled"
-			}
-			res.Violate("C18/pvc-deleted/"+kind, "scale %d -> %d (templates %d, deletion %v) deleted claim %q, allowed set %v", c.Old, c.New, c.Templates, c.DeletePVC, n, keysB(wantDel))
-		}
-		if !pvcs[n] {
-			res.AddStat("deletes_of_nonexistent_claims", 1)
-		}
+	steps := []int{c.New}
+	if c.Then >= 0 {
+		steps = append(steps, c.Then)
 	}
-	for n := range wantDel {
-		if !deleted[n] {
-			res.Violate("C18/pvc-not-deleted", "scale %d -> %d with deletion enabled left claim %q", c.Old, c.New, n)
+	var deletedAll []string
+	updatesAll := 0
+	for _, stepNew := range steps {
+		cli.ClearActions()
+		if err := m.ChangeScale(int32(stepNew)); err != nil {
+			res.Violate("C18/change-scale-error", "ChangeScale(%d): %v", stepNew, err)
 		}
-	}
-	res.AddStat("claims_deleted", int64(len(deleted)))
-	// remaining claims really are still there
-	if list, err := cli.CoreV1().PersistentVolumeClaims(ns).List(nil2ctx(), metav1.ListOptions{}); err == nil {
-		left := map[string]bool{}
-		for _, p := range list.Items {
-			left[p.Name] = true
-		}
-		for n := range pvcs {
-			if !wantDel[n] && !left[n] {
-				res.Violate("C18/pvc-missing-afterwards", "claim %q no longer exists after scale %d -> %d", n, c.Old, c.New)
+		updates, deleted := 0, map[string]bool{}
+		var otherWrites []string
+		for _, a := range cli.Actions() {
+			verb, resource := a.GetVerb(), a.GetResource().Resource
+			switch {
+			case verb == "get" || verb == "list" || verb == "watch":
+			case verb == "update" && resource == "statefulsets":
+				updates++
+				sts, ok := a.(k8stesting.UpdateAction).GetObject().(*appsv1.StatefulSet)
+				if !ok || sts.Name != set || sts.Spec.Replicas == nil || int(*sts.Spec.Replicas) != stepNew {
+					res.Violate("C18/wrong-update", "StatefulSet update sets replicas to something else than the requested %d", stepNew)
+				}
+			case verb == "delete" && resource == "persistentvolumeclaims":
+				deleted[a.(k8stesting.DeleteAction).GetName()] = true
+			default:
+				otherWrites = append(otherWrites, verb+" "+resource)
 			}
 		}
+		res.AddStat("scale_changes", 1)
+		if stepNew != live && updates != 1 {
+			res.Violate("C18/update-count", "scale %d -> %d issued %d StatefulSet updates, expected exactly 1", live, stepNew, updates)
+		}
+		if stepNew == live && (updates != 0 || len(deleted) != 0 || len(otherWrites) != 0) {
+			res.Violate("C18/unchanged-scale-not-noop", "scale unchanged at %d but %d updates, deletions %v, other writes %v", live, updates, keysB(deleted), otherWrites)
+		}
+		if len(otherWrites) > 0 {
+			res.Violate("C18/unexpected-write", "unexpected API writes: %v", otherWrites)
+		}
+		// the object in the API afterwards
+		if sts, err := cli.AppsV1().StatefulSets(ns).Get(nil2ctx(), set, metav1.GetOptions{}); err == nil {
+			if sts.Spec.Replicas == nil || int(*sts.Spec.Replicas) != stepNew {
+				got := -1
+				if sts.Spec.Replicas != nil {
+					got = int(*sts.Spec.Replicas)
+				}
+				res.Violate("C18/replicas-not-set", "after ChangeScale(%d) the StatefulSet has replicas %d", stepNew, got)
+			}
+		}
+		wantDel := map[string]bool{}
+		if c.DeletePVC {
+			for i := stepNew; i < live; i++ {
+				for t := 0; t < c.Templates; t++ {
+					wantDel[fmt.Sprintf("%s-%s-%d", []string{"data", "wal"}[t], set, i)] = true
+				}
+			}
+		}
+		for n := range deleted {
+			if !wantDel[n] {
+				kind := "claim-of-remaining-or-foreign"
+				if !c.DeletePVC {
+					kind = "deletion-disabled"
+				}
+				res.Violate("C18/pvc-deleted/"+kind, "scale %d -> %d (templates %d, deletion %v) deleted claim %q, allowed set %v", live, stepNew, c.Templates, c.DeletePVC, n, keysB(wantDel))
+			}
+			if !pvcs[n] {
+				res.AddStat("deletes_of_nonexistent_claims", 1)
+			}
+		}
+		for n := range wantDel {
+			if !deleted[n] {
+				res.Violate("C18/pvc-not-deleted", "scale %d -> %d with deletion enabled left claim %q", live, stepNew, n)
+			}
+		}
+		res.AddStat("claims_deleted", int64(len(deleted)))
+		// remaining claims really are still there
+		if list, err := cli.CoreV1().PersistentVolumeClaims(ns).List(nil2ctx(), metav1.ListOptions{}); err == nil {
+			left := map[string]bool{}
+			for _, p := range list.Items {
+				left[p.Name] = true
+			}
+			for n := range pvcs {
+				if !wantDel[n] && !left[n] {
+					res.Violate("C18/pvc-missing-afterwards", "claim %q no longer exists after scale %d -> %d", n, live, stepNew)
+				}
+			}
+		}
+
+		deletedAll = append(deletedAll, keysB(deleted)...)
+		updatesAll += updates
+		for n := range wantDel {
+			delete(pvcs, n)
+		}
+		live = stepNew
 	}
 	res.Viol = dedupe(res.Viol)
 	if len(res.Viol) > 0 {
 		res.Witness = c
 	}
 	if idx%500 == 0 {
-		res.Sample = map[string]interface{}{"case": c, "deleted_claims": keysB(deleted), "statefulset_updates": updates}
+		res.Sample = map[string]interface{}{"case": c, "deleted_claims": deletedAll, "statefulset_updates": updatesAll}
 	}
 	return res
 }
@@ -346,7 +387,7 @@ func init() {
 	core.Register(&core.Prop{
 		ID:    "C18",
 		Level: "exploration",
-		Rule: "exhaustive sweep within bounds: current and requested replica count in 0..12 (two-digit ordinals included) x 0..2 volume claim templates x deletion flag x 6 pod-list order classes x readiness patterns (quick: none / all / two alternating masks; thorough: every subset of pods with an IP up to 6 pods, 16 random subsets above), each with claims for all ordinals 0..12 of two StatefulSets plus decoys with similar names (data-prom-100, xdata-prom-1, data-promx-0, data-prom-b-k) and, in half of the cases, a second StatefulSet 'prom-b'; plus rolling-update-in-progress cases; " +
+		Rule: "exhaustive sweep within bounds: current and requested replica count in 0..12 (two-digit ordinals included) x 0..2 volume claim templates x deletion flag x 6 pod-list order classes x readiness patterns (quick: none / all / two alternating masks; thorough: every subset of pods with an IP up to 6 pods, 16 random subsets above), each with claims for all ordinals 0..12 of two StatefulSets plus decoys with similar names (data-prom-100, xdata-prom-1, data-promx-0, data-prom-b-k) and, in half of the cases, a second StatefulSet 'prom-b'; plus, for counts 0..6, every (first request, second request on the SAME manager object) pair and every (count set by somebody else behind the manager's back, request) pair; plus rolling-update-in-progress cases; " +
 			"the real kubernetes.ReplicasManager / shard manager run on a client-go fake clientset; oracle over returned shards (ID, readiness, contacted URL) and over the fake's action log and objects; " +
 			"non-trivial = every case; distinct = the parameter tuple",
 		Assumptions: []string{
